@@ -77,7 +77,7 @@ def run_mp(sc):
     return out
 
 
-def _late_model(seed, mod, durs):
+def _late_model(seed, mod, durs, mode='callback'):
     """Source -> machine -> sink through the genuine System.simulate (whose first call initialises the simulation); the sink's
     receive callback creates a further asset when its k-th part arrives.  Returns everything observable at the end."""
     from simprocesd.model import System
@@ -91,8 +91,13 @@ def _late_model(seed, mod, durs):
         snk = Sink('snk', upstream=[m])
         made, calls = [], []
 
-        def on_receive(sink, part):
-            if sink.received_parts_count == k and not made:
+        def create():
+            on_receive(snk, None, True)
+
+        def on_receive(sink, part, force=False):
+            if mode != 'callback' and not force:
+                return
+            if (force or sink.received_parts_count == k) and not made:
                 if seed % 2:
                     made.append(PeriodicSensor(1.25, [AttributeProbe('received_parts_count', snk)], 'late_sensor'))
                 else:
@@ -100,8 +105,15 @@ def _late_model(seed, mod, durs):
                     sch.register_object(snk, lambda sc_, o, t, st: calls.append((t, st)))
                     made.append(sch)
         snk.add_receive_part_callback(on_receive)
-        for d in durs:
+        if mode == 'event':
+            # the asset is created by the last event executed at the instant at which the other variant splits the run
+            from simprocesd.model import EventType
+            system.env.schedule_event(durs[0], -5, create, EventType.TERMINATE + 0.5)
+            durs = [sum(durs)]
+        for j, d in enumerate(durs):
             system.simulate(d, print_summary=False)
+            if mode == 'between' and j == 0:
+                create()
         data = {lab: {sub: [tuple(x) if isinstance(x, (list, tuple)) else x for x in v] for sub, v in dd.items()} for lab, dd in system.simulation_data.items()}
         # part ids come from the process-wide counter: number them from the first one this model generated
         plabels = ('received_part', 'produced_part', 'supplied_new_part')
@@ -124,7 +136,12 @@ def run_split_late(sc):
     b = 6 + (seed // 5) % 6
     whole = _late_model(seed, mod, [a + b])
     parts = _late_model(seed, mod, [a, b])
-    return dict(a=a, b=b, same=(whole == parts), whole=whole if whole != parts else None, parts=parts if whole != parts else None)
+    # the same asset created at the split point: between the two calls, against by the last event of that instant in one run
+    # (all tie-break weights equal, so that the extra event of the second variant changes no choice)
+    ev = _late_model(seed, 1, [a, b], 'event')
+    bt = _late_model(seed, 1, [a, b], 'between')
+    return dict(a=a, b=b, same=(whole == parts), whole=whole if whole != parts else None, parts=parts if whole != parts else None,
+                same_at_split=(ev == bt), ev=ev if ev != bt else None, bt=bt if ev != bt else None)
 
 
 def run_impl(sc):
@@ -183,6 +200,11 @@ def monitor_c14(sc, obs):
             return dict(now=r['now'], count=r['count'], created=r['created'], extra=r['extra'])
         bad('C14/split-differs', 'a line whose sink callback creates a further asset during the run: simulate(%d) then simulate(%d) ends differently from simulate(%d) (tie-break choices held fixed): %s vs %s'
             % (sl['a'], sl['b'], sl['a'] + sl['b'], brief(sl['parts']), brief(sl['whole'])))
+    if sl and not sl.get('same_at_split', True):
+        def brief2(r):
+            return dict(now=r['now'], count=r['count'], created=r['created'], extra=r['extra'])
+        bad('C14/split-differs', 'a sensor or scheduler created when the clock shows %d: simulate(%d), create, simulate(%d) ends differently from one simulate(%d) in which the last event of that instant creates it: %s vs %s'
+            % (sl['a'], sl['a'], sl['b'], sl['a'] + sl['b'], brief2(sl['bt']), brief2(sl['ev'])))
     mp = rep.get('mp')
     if mp:
         for p in (0, 2):
